@@ -50,6 +50,10 @@ class GCtx:
     def __pyvc_attr__(self, eng, name):
         if name == 'key':
             return self.key
+        if name == 'chain_id':
+            return Tok('chain_id_pinned_on_the_client_context')     # differs from the group's own chain id
+        if name in ('protocol', 'branch'):
+            return Tok('context_' + name)
         raise Unsupported('context.' + name)
 
 
